@@ -426,6 +426,10 @@ C_PREAMBLE = b'''#include <stdbool.h>
    ((a) + \\
     (b) + (c))
 #define EMPTY
+#define MIX(a, b) a ^ b < 4
+#define TRI(a, b) a > b ? a ^ 1 : b << 2
+#define AMP(a, b) a & b && a | b
+#define NEG(a) - a * ~ a
 #if 0
 this branch is never compiled , it may hold anything ( { [ ] } ) ...
 #else
@@ -465,7 +469,7 @@ static int calls(fn_t f, int a)
    struct bits bb = { 1, 2, 3 };
    int arr2[3] = { [0] = 1, [2] = a };
    nothing(&a);
-   return f(SQ(a), ADD3(1, 2, a)) + bb.lo + arr2[2] + (int)sizeof(struct bits) + neg(-a) + sel(a > 1 && a < 9, a, 2) + loops(3)
+   return f(SQ(a), ADD3(1, 2, a)) + (MIX(a, 1)) + (TRI(a, 2)) + (AMP(a, 3)) + (NEG(a)) + bb.lo + arr2[2] + (int)sizeof(struct bits) + neg(-a) + sel(a > 1 && a < 9, a, 2) + loops(3)
           + (int)us1 + (int)li1 + (int)ull1 + ss1 + (int)lu1 + str1[0] + chr1 + RED + P_B;
 }
 '''
@@ -474,6 +478,8 @@ CPP_PREAMBLE = b'''#include "h_zeta.h"
 #include "h_alpha.h"
 #include "h_mid.h"
 #define SQ(x) ((x) * (x))
+#define MIX(a, b) a ^ b < 4
+#define TRI(a, b) a > b ? a ^ 1 : b << 2
 #if 0
 never compiled ( ( { ; } ) ) ::
 #endif
@@ -507,7 +513,7 @@ static int use(int n)
    Der d(n, 2);
    Box<Box<int>> bb{Box<int>(n)};
    const Base &b = d;
-   return b.id() + d(3) + static_cast<int>(total(bb, n)) + static_cast<int>(Mode::On) + SQ(n);
+   return b.id() + d(3) + static_cast<int>(total(bb, n)) + static_cast<int>(Mode::On) + SQ(n) + (MIX(n, 1)) + (TRI(n, 2));
 }
 }
 '''
@@ -516,6 +522,8 @@ OC_PREAMBLE = b'''#include <stdbool.h>
 #import "h_zeta.h"
 #import "h_alpha.h"
 #define SQ(x) ((x) * (x))
+#define MIX(a, b) a ^ b < 4
+#define TRI(a, b) a > b ? a ^ 1 : b << 2
 __attribute__((objc_root_class))
 @interface Root
 + (id)alloc;
@@ -555,7 +563,7 @@ __attribute__((objc_root_class))
 int use_shape(int n)
 {
    Shape *s = [[Shape alloc] initWithW:n h:2];
-   s.tag = SQ(n);
+   s.tag = SQ(n) + (MIX(n, 1)) + (TRI(n, 2));
    SEL sel = @selector(scale:by:);
    (void)sel;
    if (n > 2 && n < 9) n++; else n--;
